@@ -18,12 +18,13 @@ theorem rwp_ite {α β : Type} {c : Prop} [Decidable c] {a₁ b₁ : M α} {a₂
   · simp only [h, if_false]; exact hb h
 
 theorem ASim.attachRow (ok : P.Ok) {s₁ s₂ : St} (h : ASim P s₁ s₂) {g : Nat} (hd : P.DG g) {nodes : List Nat} {t : Str}
-    (hg : s₁.groups[g]? = some (.row nodes t)) (rn : NodeM) :
+    (hg : s₁.groups[g]? = some (.row nodes t)) (rn : NodeM)
+    (hdx : Below s₁.next rn.dexitUid ∨ ¬ Invented rn.dexitUid) :
     ASim P { s₁ with nodes := s₁.nodes.push rn, groups := s₁.groups.setIfInBounds g (.row (nodes ++ [s₁.nodes.size]) t) }
       { s₂ with nodes := s₂.nodes.push (rnNode P.ρ rn),
                 groups := s₂.groups.setIfInBounds (P.γ g) (.row (nodes.map P.ν ++ [s₂.nodes.size]) t) } := by
   have h0 : P.ν s₁.nodes.size = s₂.nodes.size := by simpa using h.nsync 0
-  have a1 := h.addNode rn
+  have a1 := h.addNode rn hdx
   have hcl := h.closed g _ hd hg
   have a2 := a1.setGrp ok hd (old := .row nodes t) (g' := .row (nodes ++ [s₁.nodes.size]) t) hg
     (by
@@ -51,13 +52,14 @@ theorem ASim.attachRow (ok : P.Ok) {s₁ s₂ : St} (h : ASim P s₁ s₂) {g : 
 
 theorem ASim.attachNoop (ok : P.Ok) {s₁ s₂ : St} (h : ASim P s₁ s₂) {g : Nat} (hd : P.DG g)
     {ps : List (Nat × Cond)} {r0 : Option Nat}
-    (hg : s₁.groups[g]? = some (.noop ps r0)) (rn : NodeM) :
+    (hg : s₁.groups[g]? = some (.noop ps r0)) (rn : NodeM)
+    (hdx : Below s₁.next rn.dexitUid ∨ ¬ Invented rn.dexitUid) :
     ASim P { s₁ with nodes := s₁.nodes.push rn, groups := s₁.groups.setIfInBounds g (.noop ps (some s₁.nodes.size)) }
       { s₂ with nodes := s₂.nodes.push (rnNode P.ρ rn),
                 groups := s₂.groups.setIfInBounds (P.γ g)
                   (.noop (ps.map fun p => (P.γ p.1, p.2)) (some s₂.nodes.size)) } := by
   have h0 : P.ν s₁.nodes.size = s₂.nodes.size := by simpa using h.nsync 0
-  have a1 := h.addNode rn
+  have a1 := h.addNode rn hdx
   have hcl := h.closed g _ hd hg
   have a2 := a1.setGrp ok hd (old := .noop ps r0) (g' := .noop ps (some s₁.nodes.size)) hg
     (by
@@ -106,20 +108,22 @@ theorem routerBehind_rel (ok : P.Ok) {s₁ s₂ : St} (h : ASim P s₁ s₂) {g 
   refine rwp_bind_id (newSwitch_rel _ _ _) a0.idSync ?_
   intro sw k1
   have a1 := bump_asim a0 k1
-  refine rwp_bind_id (newRouterNode_rel u .switch (.sw (sw.setDflt n.dexitDest))) a1.idSync ?_
-  intro rn k2
-  have a2 := bump_asim a1 k2
+  refine rwp_bind_newRouterNode u .switch (.sw (sw.setDflt n.dexitDest)) a1.idSync ?_
+  have a2 := bump_asim a1 1
+  generalize hrn : mkRouterNode u .switch (.sw (sw.setDflt n.dexitDest)) (tid (s₁.next + k0 + k1)) = rn
+  have hrd : Below (s₁.next + k0 + k1 + 1) rn.dexitUid := by
+    rw [← hrn]; exact ⟨s₁.next + k0 + k1, by omega, rfl⟩
   unfold attachRowNode
   rw [rwp_iff_wp]
   dsimp only
   wp_simp [wp_addNode, wp_setGrp, wp_fresh', wp_setNode]
   have h0 : P.ν s₁.nodes.size = s₂.nodes.size := by simpa using h.nsync 0
-  have a3 := a2.attachRow ok hdg (nodes := nodes) (t := rowType) hg rn
+  have a3 := a2.attachRow ok hdg (nodes := nodes) (t := rowType) hg rn (.inl hrd)
   have a4 := bump_asim a3 1
-  have a5 := a4.setNode ok hdi (old := n) (n' := { n with dexitUid := tid (s₁.next + k0 + k1 + k2), dexitDest := .node u })
-    (getElem?_push_lt hn)
-  have hid : P.ρ (tid (s₁.next + k0 + k1 + k2)) = tid (s₂.next + k0 + k1 + k2) := by
-    have := h.idsync (k0 + k1 + k2)
+  have a5 := a4.setNode ok hdi (old := n) (n' := { n with dexitUid := tid (s₁.next + k0 + k1 + 1), dexitDest := .node u })
+    (getElem?_push_lt hn) (.inr ⟨s₁.next + k0 + k1 + 1, by simp, rfl⟩)
+  have hid : P.ρ (tid (s₁.next + k0 + k1 + 1)) = tid (s₂.next + k0 + k1 + 1) := by
+    have := h.idsync (k0 + k1 + 1)
     simpa [Nat.add_assoc] using this
   refine ⟨⟨by simp [h0], ?_, ⟨rfl, rfl, rfl⟩, ⟨rfl, rfl, rfl⟩⟩, ?_, h.ndom _ (Nat.le_refl _)⟩
   · refine a5.congr rfl rfl rfl rfl rfl ?_ rfl rfl rfl rfl
@@ -143,14 +147,14 @@ theorem nodeAddChoice_rel (ok : P.Ok) {s₁ s₂ : St} (h : ASim P s₁ s₂) {i
       refine rwp_bind_id (addChoice_rel ok.hρ r _ _ _ _ d false) h.idSync ?_
       intro r' k
       rw [rwp_iff_wp, wp_setNode, wp_setNode]
-      exact ⟨trivial, (bump_asim h k).setNode ok hd hn (n' := { n with router := some (.sw r') }),
+      exact ⟨trivial, (bump_asim h k).setNode ok hd hn (n' := { n with router := some (.sw r') }) (.inl rfl),
         ⟨rfl, rfl, rfl⟩, ⟨rfl, rfl, rfl⟩⟩
     | rnd r =>
       simp only [rnNode_router, hr, Option.map_some, rnRouter]
       refine rwp_bind_id (randomAddChoice_rel ok.hρ r _ d) h.idSync ?_
       intro r' k
       rw [rwp_iff_wp, wp_setNode, wp_setNode]
-      exact ⟨trivial, (bump_asim h k).setNode ok hd hn (n' := { n with router := some (.rnd r') }),
+      exact ⟨trivial, (bump_asim h k).setNode ok hd hn (n' := { n with router := some (.rnd r') }) (.inl rfl),
         ⟨rfl, rfl, rfl⟩, ⟨rfl, rfl, rfl⟩⟩
 
 theorem rowExitCond_rel (ok : P.Ok) {s₁ s₂ : St} (h : ASim P s₁ s₂) {g i : Nat} (hdg : P.DG g) (hdi : P.DN i)
@@ -284,10 +288,12 @@ theorem addExit_rel (ok : P.Ok) : ∀ (f₁ f₂ j : Nat) (d : Dest) (c : Cond) 
             refine rwp_bind_id (newSwitch_rel _ _ _) a0.idSync ?_
             intro sw k1
             have a1 := bump_asim a0 k1
-            refine rwp_bind_id (newRouterNode_rel u .switch (.sw sw)) a1.idSync ?_
-            intro rn k2
-            have a2 := bump_asim a1 k2
-            have a3 := a2.attachNoop ok hd (ps := ps) (r0 := none) hg rn
+            refine rwp_bind_newRouterNode u .switch (.sw sw) a1.idSync ?_
+            have a2 := bump_asim a1 1
+            generalize hrn : mkRouterNode u .switch (.sw sw) (tid (s₁.next + k0 + k1)) = rn
+            have hrd : Below (s₁.next + k0 + k1 + 1) rn.dexitUid := by
+              rw [← hrn]; exact ⟨s₁.next + k0 + k1, by omega, rfl⟩
+            have a3 := a2.attachNoop ok hd (ps := ps) (r0 := none) hg rn (.inl hrd)
             dsimp only at a3 ⊢
             unfold attachNoopRouter
             rw [rwp_bind, rwp_iff_wp]
